@@ -268,27 +268,29 @@ def internalLabels (s : St) : List Label :=
   ++ (List.range s.ls.length).flatMap (fun i => [.arm i, .catchTake i, .transform i, .move i])
 
 /-- successors by one internal step, labels for which `blocked` holds excluded (a goroutine parked by the
-schedule controller) -/
-def succs (cfg : Cfg) (blocked : Label → Bool) (s : St) : List St :=
-  (internalLabels s).filterMap (fun l => if blocked l then none else step cfg s l)
+schedule controller); `extra` are labels that have become enabled by an earlier driver action and happen on their
+own (`activate` once the task in front of the host has been answered) -/
+def succs (cfg : Cfg) (blocked : Label → Bool) (extra : List Label) (s : St) : List St :=
+  (extra ++ internalLabels s).filterMap (fun l => if blocked l then none else step cfg s l)
 
 def insertNew (acc : List St) (xs : List St) : List St × List St :=
   xs.foldl (fun (p : List St × List St) x => if p.1.contains x then p else (x :: p.1, x :: p.2)) (acc, [])
 
 /-- all states reachable by internal steps (the frontier is expanded `fuel` times) -/
-def closure (cfg : Cfg) (blocked : Label → Bool) : Nat → List St → List St → List St
+def closure (cfg : Cfg) (blocked : Label → Bool) (extra : List Label) : Nat → List St → List St → List St
   | 0, acc, _ => acc
   | _, acc, [] => acc
   | fuel + 1, acc, frontier =>
-    let next := frontier.flatMap (succs cfg blocked)
+    let next := frontier.flatMap (succs cfg blocked extra)
     let (acc', fresh) := insertNew acc next
-    closure cfg blocked fuel acc' fresh
+    closure cfg blocked extra fuel acc' fresh
 
-def reachInternal (cfg : Cfg) (blocked : Label → Bool) (ss : List St) : List St :=
+def reachInternal (cfg : Cfg) (blocked : Label → Bool) (extra : List Label) (ss : List St) : List St :=
   let (acc, fresh) := insertNew [] ss
-  closure cfg blocked 200 acc fresh
+  closure cfg blocked extra 200 acc fresh
 
 /-- no unblocked internal step is enabled -/
-def stuck (cfg : Cfg) (blocked : Label → Bool) (s : St) : Bool := (succs cfg blocked s).isEmpty
+def stuck (cfg : Cfg) (blocked : Label → Bool) (extra : List Label) (s : St) : Bool :=
+  (succs cfg blocked extra s).isEmpty
 
 end Bpmn.Model.Boundary
